@@ -171,6 +171,25 @@ pub mod c02 {
         }
         Ok(acc)
     }
+    /// BAD (G4e): values of earlier turns are referenced only by the vector while the next call may collect
+    pub fn bad_collect(interp: &mut Interp, next: JsValue, n: u32) -> Result<Vec<JsValue>, ()> {
+        let mut values = Vec::new();
+        for _ in 0..n {
+            let Guarded { value, guard: _g } = interp.call_function(next.clone(), &[])?;
+            values.push(value);
+        }
+        Ok(values)
+    }
+    /// GOOD (G4e): guarded while the vector is being filled
+    pub fn good_collect(interp: &mut Interp, next: JsValue, n: u32, keep: &super::gc::Guard<JsObject>) -> Result<Vec<JsValue>, ()> {
+        let mut values = Vec::new();
+        for _ in 0..n {
+            let Guarded { value, guard: _g } = interp.call_function(next.clone(), &[])?;
+            if let JsValue::Object(o) = &value { keep.guard(o.clone()); }
+            values.push(value);
+        }
+        Ok(values)
+    }
     // G5b controls: a rebuilt frame owns `register_guard`; its parked value must be rooted through it
     pub struct Frame { pub parked: Option<JsValue>, pub registers: Vec<JsValue>, pub register_guard: super::gc::Guard<JsObject> }
     fn dup(v: &JsValue, g: &super::gc::Guard<JsObject>) -> JsValue {
